@@ -381,6 +381,13 @@ def check_adaptive_windows(ctx):
         if isinstance(recv, ast.Name) and pos_of.get(recv.id) in (0, 1):
             table[pos_of[recv.id]].append(e)
     ctx.floor('C06.6', min(len([e for e in table[0] if e.loops]), len([e for e in table[1] if e.loops])), 1, 'window-table appends inside the interval loop')
+    from .common import tolerance_events
+    tol_ = tolerance_events(ev)
+    if tol_:
+        ctx.fail('C06.6', 'the tie cases of the adaptive split are decided by exact zero tests of the two adjacent jumps',
+                 f"tolerance-based comparison {sorted({e.data['name'] for e in tol_})} at {tol_[0].loc()}: with the default tolerances a real but small jump (small relative to the "
+                 f"level of the series) counts as flat - the split then depends on the scale and offset of the data", tol_[0].loc(), fi.qualname, 'tolerance')
+        return
     # spec
     kctxs = [l for e in apps for l in e.loops]
     if not kctxs:
